@@ -491,3 +491,19 @@ pid_t gettid(void) {
     log_mark("P\n");
     return (pid_t)(fake_pid + tid_index);
 }
+
+/* AT_RANDOM: the 16 random bytes the kernel hands every process through the auxiliary vector are
+   OS entropy too; a program that asks for them gets bytes derived from the plan's key. */
+#include <sys/auxv.h>
+unsigned long getauxval(unsigned long type) {
+    static unsigned long (*real)(unsigned long) = NULL;
+    if (!real) real = (unsigned long (*)(unsigned long))dlsym(RTLD_NEXT, "getauxval");
+    init_once();
+    if (type == AT_RANDOM && key_len >= 16) {
+        static unsigned char at_random[16];
+        for (int i = 0; i < 16; i++) at_random[i] = (unsigned char)(key_bytes[i] ^ 0xA5);
+        log_mark("P\n");
+        return (unsigned long)at_random;
+    }
+    return real ? real(type) : 0;
+}
